@@ -101,6 +101,7 @@ def cases(draw):
     # the finder runs one query per combination: keep the number of pairs (fuzzy: attributes x terms) small
     pairs = pairs[:4] if mode == "match" else pairs[:3]
     return {"docs": docs, "pairs": pairs, "form": draw(st.sampled_from(["string", "dict"])),
+            "reuse": draw(st.booleans()),
             "mode": mode, "seed": draw(st.integers(0, 10 ** 6))}
 
 
@@ -340,8 +341,29 @@ def body(case):
             for k, a, v in pairs:
                 q.setdefault(k, []).append((a, list(v) if a == "value" else v))
             kw = {"q_params": q}
+    finder = FuzzyFinder()
+    if case.get("reuse"):
+        # a finder that has already answered another search answers like a fresh one
+        classes.append("finder:reused")
+        # (with values that do have hits: what such a search leaves behind must not show up later)
+        d0 = case["docs"][0]
+        prior = []
+        if d0.get("author") and ok_value(d0["author"]):
+            prior.append("doc(author:%s)" % d0["author"])
+        secs0 = list(S.iter_secs(d0))
+        if secs0 and ok_value(secs0[0]["name"]):
+            prior.append("sec(name:%s)" % secs0[0]["name"])
+        props0 = list(S.iter_props(d0))
+        if props0 and ok_value(props0[0]["name"]):
+            prior.append("prop(name:%s)" % props0[0]["name"])
+        prior = " ".join(prior) or "doc(version:0)"
+        try:
+            finder.find(mode="match", graph=graph, q_str=prior)
+            finder.find(mode="fuzzy", graph=graph, q_str="FIND sec(name) prop(name) HAVING nothing-at-all")
+        except Exception:
+            pass
     try:
-        out = FuzzyFinder().find(mode=mode, graph=graph, **kw)
+        out = finder.find(mode=mode, graph=graph, **kw)
     except Exception as exc:
         fails.append(failure("query.raised", "find(%s, %r) raised %s: %s" % (mode, kw, type(exc).__name__,
                                                                              str(exc)[:150]), **loc))
